@@ -43,12 +43,13 @@ def regenerate(ROOT, REPO):
     is regenerated from cola/libcola/shortest_paths.h by cpp2lean on every run and proved equal to
     Model/ShortestPaths.lean's floydWarshall, with all assertions / array bounds discharged (Props/C17Tie.lean); so are
     dijkstra_init (= the model's adj lists) the relax loop of dijkstra(s, vs, d) (a fragment; = foldl relaxEdgeH over adj) and the WHOLE function
-    dijkstra(s, vs, d) (while loop on fuel, abstract heap; with the model heap = dijkstraHeap, so dijkstraHeap_correct is about it)"""
+    dijkstra(s, vs, d) (while loop on fuel, abstract heap; with the model heap = dijkstraHeap, so dijkstraHeap_correct is about it);
+    johnsons and the top-level dijkstra(s, n, d, es, eweights), which call them (= johnsonsHeap, so johnsonsHeap_correct is about it)"""
     import sys
     from pathlib import Path
     sys.path.insert(0, str(Path(ROOT) / "tools" / "cpp2lean"))
     import jobs
-    return jobs.regenerate(["shortest", "dijkstra_relax", "dijkstra"], Path(ROOT), Path(REPO))
+    return jobs.regenerate(["shortest", "dijkstra_relax", "dijkstra", "johnsons"], Path(ROOT), Path(REPO))
 
 
 def plan(tier, seed, searching):
